@@ -477,7 +477,9 @@ Call ==
   /\ Chk("C08", "invalid-argument-rejected", (e.op \in {"get", "put"} /\ ~CallCheck(cfg, e)) => e.res = "arg")
   \* a started free touches the block it belongs to
   /\ held' = IF e.op = "put" THEN {b \in held : ~Covers(b, e.frame, e.order)} ELSE held
-  /\ fuzzy' = IF e.op = "change" /\ e.cop # 0 THEN Trees(cfg) ELSE fuzzy
+  \* after a panic the allocator's state is undefined: -1 marks the rest of the execution
+  /\ fuzzy' = IF e.res = "panic" THEN fuzzy \cup {-1}
+              ELSE IF e.op = "change" /\ e.cop # 0 THEN fuzzy \cup Trees(cfg) ELSE fuzzy
   /\ l' = l + 1
   /\ UNCHANGED <<props, cfg, fr, whole, hidden, ot, os, drained, c11ok, snap>>
 
@@ -512,8 +514,8 @@ Ret ==
 Obs ==
   /\ IsEv("obs")
   /\ \A t \in Threads : pend[t] = NoPend
-  /\ Chk("C04", "observation-panicked", ObsOk(e.obs))
-  /\ ObsOk(e.obs) =>
+  /\ Chk("C04", "observation-panicked", -1 \in fuzzy \/ ObsOk(e.obs))
+  /\ (ObsOk(e.obs) /\ -1 \notin fuzzy) =>
        /\ Chk("C04", "frame-status",
               \A h \in Huges(cfg) : RangesToSet(SelectSeq(e.obs.chg, LAMBDA p : p[1] = h)[1][2]) = fr[h])
        /\ Quiescent(cfg, fr, whole, hidden, fuzzy, e.obs)
@@ -525,9 +527,10 @@ Obs ==
 \* "mark" saves the state reached by a scenario's sequential setup, "rewind" restores it
 Mark ==
   /\ IsEv("mark")
-  /\ snap' = <<fr, whole, hidden, ot, os, held>>
+  /\ held' = {<<e.held[i][1], e.held[i][2]>> : i \in DOMAIN e.held}
+  /\ snap' = <<fr, whole, hidden, ot, os, held'>>
   /\ l' = l + 1
-  /\ UNCHANGED <<props, cfg, fr, whole, hidden, ot, os, drained, c11ok, pend, lin, held, fuzzy>>
+  /\ UNCHANGED <<props, cfg, fr, whole, hidden, ot, os, drained, c11ok, pend, lin, fuzzy>>
 Rewind ==
   /\ IsEv("rewind")
   /\ snap # <<>>
